@@ -95,8 +95,10 @@ def resolved_params(rng, N=None):
     N = int(rng.choice([128, 256])) if N is None else N
     lam = float(10 ** rng.uniform(-6.5, -5.3))
     d1 = float(10 ** rng.uniform(-4, -2.5))
-    w0 = N * d1 / float(rng.uniform(14, 20))
-    x0, y0 = [float(v) for v in rng.uniform(-1.2, 1.2, 2) * w0]
+    # window half-width 8..11 w0; beam centre within 1 w0 (+ <= 0.25 w0 of tilt walk-off): at least 5.5 w of clearance in
+    # every plane a propagator touches, including output planes with spacing 0.75..1.5 d1 (tail at the edge < 1e-13)
+    w0 = N * d1 / float(rng.uniform(16, 22))
+    x0, y0 = [float(v) for v in rng.uniform(-1.0, 1.0, 2) * w0]
     if abs(x0) < 0.2 * w0:
         x0 = 0.7 * w0
     if abs(y0 - x0) < 0.2 * w0:
@@ -139,7 +141,7 @@ def check_beams(ctx, op, rng):
     ctx.close("twoStep_vs_gaussian_beam", got2, refm, 1e-6, "twoStepFresnel:analytic_beam:" + mcls + (":z<0" if zm < 0 else ":z>0"), wm)
     ctx.close("twoStep_vs_AS", got2, upto_phase(gotm, got2), 1e-6, "twoStepFresnel_vs_angularSpectrum:" + mcls, wm)
     # --- one-step: output spacing lambda z /(N d1)
-    c1 = float(rng.uniform(0.7, 1.4))
+    c1 = float(rng.uniform(1.0, 1.5))
     z1 = float(rng.choice([-1, 1]) * c1 * zc)
     d2 = lam * z1 / (N * d1)                      # signed: for z < 0 the one-step output grid runs backwards
     got1 = pure_call(ctx, "oneStepFresnel", op.oneStepFresnel, U0, lam, d1, z1)
